@@ -11,6 +11,8 @@ Bounded-exhaustive product (engine E1) over the real ``passlib.totp.TOTP``:
 * part ``sweep``: every counter 0..4095 (thorough 0..65535) x algs x digits; the run *asserts* (harness
   error otherwise) that every dynamic-truncation offset 0..15, a leading-zero token and a 31-bit value
   >= 10^9 occurred for every (alg, digits) in that sweep.
+* part ``history``: one live object x every history (depth <= 3, thorough 4) of generate() calls and key
+  re-assignments through the public ``key`` setter; after each step the token is the RFC value of the reported key.
 * part ``keytext``: every single-position decoration (blank, dash inserted; one letter lower-cased /
   upper-cased) of the base32 and hex renderings of every key, '=' padding, all-lower / all-upper,
   grouped forms, str and ASCII bytes -- all must denote the same key; ``base32_key`` / ``hex_key`` /
@@ -198,7 +200,40 @@ def eval_render(case):
     return out
 
 
-EVALS = {"generate": eval_generate, "keytext": eval_keytext, "render": eval_render}
+HIST_EVENTS = (("gen", 0), ("gen", 59), ("gen", 1111111109), ("setkey", 0), ("setkey", 1), ("setkey", 2))
+
+
+def eval_history(case):
+    """one live object, a history of generate() calls and key re-assignments through the public `key` setter:
+    after every step the object generates the RFC value for the key it REPORTS (nothing derived from an earlier
+    key may survive the assignment)"""
+    keys, alg, digits, period = case["keys"], case["alg"], case["digits"], case["period"]
+    out = []
+    try:
+        obj = base_cls()(keys[0], format="raw", alg=alg, digits=digits, period=period)
+        for i, (kind, arg) in enumerate(case["history"]):
+            if kind == "setkey":
+                obj.key = keys[arg]
+                t = 30
+            else:
+                t = arg
+            cur = obj.key
+            tok = obj.generate(t)
+            want = R.hotp(cur, R.time_counter(t, period), digits, alg)
+            if tok.token != want:
+                prev = [f"{k}:{a}" for k, a in case["history"][: i + 1]]
+                out.append((f"C13|history|token_after_{kind}:alg={alg}",
+                            f"history {prev}: object reports key {cur.hex()} but generate({t}) = {tok.token!r}; RFC value for that key is {want!r}"))
+                break
+            if obj.hex_key != cur.hex():
+                out.append(("C13|history|hex_key_stale", f"hex_key {obj.hex_key!r} does not render the current key {cur.hex()}"))
+                break
+    except Exception as e:  # noqa: BLE001
+        out.append((f"C13|history|raises:{type(e).__name__}", f"history {case['history']} raised {e!r}"))
+    return out
+
+
+EVALS = {"generate": eval_generate, "keytext": eval_keytext, "render": eval_render, "history": eval_history}
 
 
 def replay(case):
@@ -315,6 +350,22 @@ def work(task):
             if c == 4095:
                 acc.sample({"kind": "generate", "key": key, "alg": alg, "digits": digits, "period": period, "t": c * period, "form": "int"})
         acc.count("sweep_counters", task["hi"] - task["lo"])
+    elif part == "history":
+        import itertools
+
+        alg = task["alg"]
+        keys = [make_key(seed, 20), make_key(seed + 1, 20), make_key(seed + 2, 33)]
+        for digits, period in ((6, 30), (8, 1)):
+            for depth in range(1, task["depth"] + 1):
+                for hist in itertools.product(HIST_EVENTS, repeat=depth):
+                    case = {"kind": "history", "keys": keys, "alg": alg, "digits": digits, "period": period, "history": [list(h) for h in hist]}
+                    acc.ev()
+                    acc.cls("history", alg, digits, period, "/".join(f"{k}{a}" for k, a in hist))
+                    found = eval_history(case)
+                    for k, desc in found:
+                        acc.violation(k, desc, case)
+                    acc.outcome("violation" if found else "ok:history")
+        acc.axis("history_depth", task["depth"])
     elif part == "keytext":
         n = task["keylen"]
         key = make_key(seed, n)
@@ -378,6 +429,8 @@ def run(ctx):
                                   "lo": lo, "hi": lo + 4096, "seed": seed})
     for n in keylens:
         tasks.append({"part": "keytext", "keylen": n, "seed": seed})
+    for alg in ALGS:
+        tasks.append({"part": "history", "alg": alg, "depth": 3 if ctx.quick else 4, "seed": seed})
     ctx.log(f"{len(tasks)} shards")
     acc = core.pmap(work, tasks)
     ctx.merge(acc)
